@@ -1038,4 +1038,4 @@ mod tests {
 
 #[cfg(kani)]
 #[path = "/verif/harness/may/sync_mpmc.rs"]
-mod verif_kani;
+pub(crate) mod verif_kani;
